@@ -61,8 +61,8 @@ SEMANTIC_RULES = {
     "C04": {"R1", "R2", "R3", "R4"},
     "C05": {"R1", "R2", "R3", "R6", "R8"},
     "C06": {"R2", "R3", "R4", "R5", "R8"},
-    "C07": {"R2", "R4"},
-    "C08": {"G1", "G2", "G5", "G8"},
+    "C07": {"R1v", "R2", "R4"},
+    "C08": {"G1", "G2", "G5", "G6r", "G8"},
     "C09": {"R4", "R5"},
     "C10": {"ENTRY", "PRIM", "CLONE", "BACKEND", "FTYPE", "OWN", "IMM"},
     "C11": {"R1", "R5", "R6", "R7"},
